@@ -18,6 +18,7 @@ passes is run by the REAL implementation once and twice:
           for the deterministic passes, modulo the CSE representative for the
           others) and its Output traces must equal the real ones."""
 import contextlib
+import random
 import io
 import traceback
 
@@ -30,8 +31,8 @@ import nlx
 RULE = ('seeded designs = gen_designs.make_design + C04 structure (const exprs, one-const 1-bit gates, '
         'swapped-argument duplicates of & | ^ nand + * == - < > concat mux, duplicated Const objects, '
         'registers of constants and chains of them, write-only memory logic, dead logic, w / full-slice chains) '
-        'plus 12 directed witnesses (multi-bit constant nand, duplicate constant memory writes, swapped non-commutative ops, '
-        'memory writes with constant data / constant enables read back, duplicated sub-expressions consumed by nets reading them in several argument positions, 1-bit identity-element folds driving Outputs directly (raw nets and after direct_connect_outputs), '
+        'plus 14 directed witnesses (multi-bit constant nand, duplicate constant memory writes, swapped non-commutative ops, '
+        'memory writes with constant data / constant enables read back, duplicated sub-expressions consumed by nets reading them in several argument positions, Inputs whose whole fan-out is dead, RomBlocks of every construction form (list / dict / function, partial, pad_with_zeros) read beyond their data, 1-bit identity-element folds driving Outputs directly (raw nets and after direct_connect_outputs), '
         'same-width permuting selects next to identity slices, word-level & | ^ nand against 0 / all-ones / middle constants) with fixed distinguishing stimulus; x form {word, synth, nand, aig} x pass {optimize, constant_propagation, '
         'common_subexp_elimination, _remove_wire_nets, _remove_slice_nets, _remove_unlistened_nets} x '
         'applications {1, 2}; plus, on every word-level design, every documented calling convention of optimize() (block= given / omitted, '
@@ -97,6 +98,36 @@ def apply_pass(name, block):
 
 # ------------------------------------------------------------------ designs
 
+def make_rom_reads(rng, d, fresh, operand, maxw, addr=None):
+    """one RomBlock in a random construction form (list / dict / function data, full or partial,
+    pad_with_zeros True / False) read at a data-dependent address and at a constant address in the
+    upper half (beyond partial data); reads beyond the data only when padding makes them legal"""
+    aw = rng.randint(1, 3)
+    bw = min(rng.choice([1, 2, 4, 8]), max(maxw, 1))
+    size = 1 << aw
+    vals = [gen_designs.boundary_value(rng, bw) | (1 if rng.random() < 0.5 else 0) for _ in range(size)]
+    form = rng.choice(['list', 'dict', 'func', 'list-partial', 'dict-partial', 'dict-sparse'])
+    pad = form.endswith(('partial', 'sparse')) or rng.random() < 0.3
+    keep = size if not form.endswith(('partial', 'sparse')) else rng.randint(1, size - 1)
+    if form.startswith('list'):
+        data = vals[:keep]
+    elif form == 'dict-sparse':
+        ks = sorted(rng.sample(range(size), keep))
+        data = {a: vals[a] for a in ks}
+    elif form.startswith('dict'):
+        data = {a: vals[a] for a in range(keep)}
+    else:
+        data = (lambda vs: (lambda a: vs[a]))(vals)
+    rom = pyrtl.RomBlock(bitwidth=bw, addrwidth=aw, romdata=data, name=fresh('rom'),
+                         max_read_ports=None, asynchronous=True, pad_with_zeros=pad)
+    d.roms.append(rom)
+    d.ops.append('c04:rom:%s:pad=%s' % (form, pad))
+    a = addr if addr is not None else operand(aw)
+    a = a[:aw] if len(a) >= aw else a.zero_extended(aw)
+    res = [pyrtl.as_wires(rom[a]), pyrtl.as_wires(rom[pyrtl.Const(size - 1, bitwidth=aw)])]
+    return res
+
+
 def extend_design(rng, d, heavy, maxw=8):
     """add the structure C04 is about to the working block of `d` (API only)"""
     block = d.block
@@ -151,6 +182,7 @@ def extend_design(rng, d, heavy, maxw=8):
         raise ValueError(op)
 
     kinds = ['constexpr', 'oneconst', 'swapdup', 'swapdup', 'samedup', 'constdup', 'regconst', 'dupselfuse',
+             'deadinput', 'romforms',
              'memwrite', 'dead', 'chain', 'muxdup', 'constexpr', 'oneconst']
     n = rng.randint(5, 10) if heavy else rng.randint(2, 4)
     for _ in range(n):
@@ -188,6 +220,27 @@ def extend_design(rng, d, heavy, maxw=8):
                 outs.extend([t1, t2])
             else:
                 outs.append(pyrtl.concat(t1, t2))
+        elif k == 'deadinput':
+            # an Input whose whole fan-out is unobservable (or that nobody reads at all)
+            w = wchoice([1, 2, 4])
+            x = pyrtl.Input(w, fresh('din'))
+            d.inputs.append(x)
+            style = rng.random()
+            if style < 0.4:
+                r = pyrtl.Register(w, fresh('rd'))
+                r.next <<= x                              # a register nobody reads
+                d.regs.append(r)
+            elif style < 0.7:
+                t = ~x                                    # a dead wire
+                t2 = t & operand(w)
+            elif style < 0.85:
+                pass                                      # an unused Input
+            else:
+                r = pyrtl.Register(w, fresh('rd'))
+                r.next <<= r ^ x                          # a dead feedback loop
+                d.regs.append(r)
+        elif k == 'romforms':
+            outs.extend(make_rom_reads(rng, d, fresh, operand, maxw))
         elif k == 'dupselfuse':
             w = wchoice([1, 2, 3])
             a, b = operand(w), operand(w)
@@ -357,6 +410,44 @@ def directed(kind):
         d.stimulus = [{'wa': w, 'ra': r, 'en': e, 'di': (3 * w + 5) % 16}
                       for (w, r, e) in [(0, 0, 1), (1, 0, 0), (1, 1, 1), (2, 1, 1), (3, 2, 0), (3, 3, 1),
                                         (0, 3, 0), (0, 0, 0), (1, 1, 0), (2, 2, 0)]]
+    elif kind == 'dead_inputs':
+        # Inputs whose entire fan-out is dead (register nobody reads, dead wires, dead feedback
+        # register, not read at all) next to live logic; the interface must not change
+        a = pyrtl.Input(3, 'a')
+        d1, d2, d3, d4 = (pyrtl.Input(w, nm) for w, nm in ((2, 'd1'), (1, 'd2'), (4, 'd3'), (3, 'd4')))
+        d.inputs += [a, d1, d2, d3, d4]
+        r1 = pyrtl.Register(2, 'dbg1')
+        r1.next <<= d1
+        t = ~d2
+        t2 = t & a[0]
+        r3 = pyrtl.Register(4, 'dbg3')
+        r3.next <<= r3 + d3
+        live = pyrtl.Register(3, 'live')
+        live.next <<= live ^ a
+        d.regs += [r1, r3, live]
+        outs += [live, a & pyrtl.Const(5, 3), (a ^ live) | pyrtl.Const(0, 3)]
+        d.stimulus = [{'a': i % 8, 'd1': (i + 1) % 4, 'd2': i % 2, 'd3': (5 * i) % 16, 'd4': (3 * i) % 8}
+                      for i in range(6)]
+    elif kind == 'rom_forms':
+        # every RomBlock construction form read at every address (also beyond partial data)
+        addr = pyrtl.Input(3, 'addr')
+        d.inputs.append(addr)
+        frng = random.Random(404)
+        names = {'n': 0}
+
+        def fresh_(prefix):
+            names['n'] += 1
+            return 'c04%s%d' % (prefix, names['n'])
+        for _ in range(10):
+            outs += make_rom_reads(frng, d, fresh_, None, 8, addr=addr)
+        full = [3, 1, 4, 1, 5, 9, 2, 6]
+        for nm, data, pad in [('lp', full[:3], True), ('dp', {0: 7, 1: 2, 5: 6}, True), ('lf', list(full), False),
+                              ('ff', (lambda a: (a * 3 + 1) % 16), False), ('df', dict(enumerate(full)), True)]:
+            rom = pyrtl.RomBlock(bitwidth=4, addrwidth=3, romdata=data, name='rom_' + nm, max_read_ports=None,
+                                 asynchronous=True, pad_with_zeros=pad)
+            d.roms.append(rom)
+            outs += [pyrtl.as_wires(rom[addr]), pyrtl.as_wires(rom[pyrtl.Const(7, 3)])]
+        d.stimulus = [{'addr': i} for i in range(8)]
     elif kind == 'dup_selfuse':
         # duplicated sub-expressions (one of each pair is discarded by CSE, whichever the set
         # order picks) whose results are read by nets using the SAME wire in several argument
@@ -427,9 +518,9 @@ def directed(kind):
 
 DIRECTED = ['nand_const', 'memwr_dup', 'swap_noncomm', 'perm_selects',
             'wordconst_and', 'wordconst_or', 'wordconst_xor', 'wordconst_nand',
-            'memwr_consts', 'direct_out_raw', 'direct_out_dco', 'dup_selfuse']
+            'memwr_consts', 'direct_out_raw', 'direct_out_dco', 'dup_selfuse', 'dead_inputs', 'rom_forms']
 # gate-level forms of the word-constant witnesses are large and contain only 1-bit gates
-DIRECTED_FORMS = {k: (['word'] if k.startswith(('wordconst_', 'direct_out_', 'dup_selfuse')) else ['word', 'synth'])
+DIRECTED_FORMS = {k: (['word'] if k.startswith(('wordconst_', 'direct_out_', 'dup_selfuse', 'rom_forms')) else ['word', 'synth'])
                   for k in DIRECTED}
 
 
@@ -826,13 +917,14 @@ def run(ctx):
             names = dump.names()
             outs = [w for w in dump.wires if isinstance(w, pyrtl.Output)]
             out_names = [w.name for w in outs]
-            in_names = sorted(w.name for w in block.wirevector_subset(pyrtl.Input))
+            in_names = sorted((w.name, w.bitwidth) for w in block.wirevector_subset(pyrtl.Input))
             common = '%s 0 %s %s %s' % (dump.coq(), dump.regmap(regmap), dump.memmap(memmap),
                                         dump.inputs(inputs))
             spec_exprs.append('spec_case %s []' % common)
             orig_nets = [str(n) for n in block.logic]
             orig_by_dest = {n.dests[0].name: n for n in block.logic if n.dests}
             case = dict(i=i, form=form, names=names, out_names=out_names, in_names=in_names,
+                        out_iface=sorted((w.name, w.bitwidth) for w in outs),
                         ncyc=ncyc, inputs=inputs, regmap={r.name: v for r, v in regmap.items()},
                         memmap={m.name: c for m, c in memmap.items()}, steady=steady,
                         orig_nets=orig_nets, orig_by_dest=orig_by_dest, nnets0=nnets0,
@@ -871,8 +963,8 @@ def run(ctx):
                     ctx.count('total_wires_removed', pname, before[1] - after[1])
                     ctx.count('total_registers_removed', pname,
                               regs_before - len(b.wirevector_subset(pyrtl.Register)))
-                    run_['in_names'] = sorted(w.name for w in b.wirevector_subset(pyrtl.Input))
-                    run_['out_names'] = sorted(w.name for w in b.wirevector_subset(pyrtl.Output))
+                    run_['in_names'] = sorted((w.name, w.bitwidth) for w in b.wirevector_subset(pyrtl.Input))
+                    run_['out_names'] = sorted((w.name, w.bitwidth) for w in b.wirevector_subset(pyrtl.Output))
                     try:
                         with quiet():
                             b.sanity_check()
@@ -921,8 +1013,8 @@ def run(ctx):
                         after = net_stats(res)
                         run_['changed'] = (after != before)
                         ctx.count('convention_nets_removed', cname, before[0] - after[0])
-                        run_['in_names'] = sorted(w.name for w in res.wirevector_subset(pyrtl.Input))
-                        run_['out_names'] = sorted(w.name for w in res.wirevector_subset(pyrtl.Output))
+                        run_['in_names'] = sorted((w.name, w.bitwidth) for w in res.wirevector_subset(pyrtl.Input))
+                        run_['out_names'] = sorted((w.name, w.bitwidth) for w in res.wirevector_subset(pyrtl.Output))
                         try:
                             with quiet():
                                 res.sanity_check()
@@ -1016,9 +1108,11 @@ def run(ctx):
                                        '%s (x%d): %s' % (pname, reps, issue), rep)
             # --- search: interface, well-formedness, behaviour vs the reference semantics of the original
             sigp = pname if not r.get('convention') else 'optimize-call'
-            if r['in_names'] != c['in_names'] or r['out_names'] != sorted(c['out_names']):
-                ctx.spec_violation('%s:io-names' % sigp, '%s changed the Input/Output name sets' % pname,
-                                   dict(rep, inputs_after=r['in_names'], outputs_after=r['out_names']))
+            if r['in_names'] != c['in_names'] or r['out_names'] != c['out_iface']:
+                ctx.spec_violation('%s:io-names' % sigp, '%s changed the Input/Output interface (names + bitwidths): Inputs %s -> %s, Outputs %s -> %s' % (
+                                       pname, c['in_names'], r['in_names'], c['out_iface'], r['out_names']),
+                                   dict(rep, inputs_before=c['in_names'], inputs_after=r['in_names'],
+                                        outputs_before=c['out_iface'], outputs_after=r['out_names']))
                 continue
             if r['sanity'] is not None:
                 ctx.spec_violation('%s:sanity' % sigp, 'result of %s fails sanity_check: %s' % (pname, r['sanity']), rep)
